@@ -23,6 +23,9 @@ pub struct Case {
     pub questions: Vec<WQ>,
     /// 0 only-v4, 1 prefer-v4, 2 prefer-v6, 3 only-v6
     pub protocol: u8,
+    /// seconds the cache clock advances before question i (cached records age and expire)
+    #[serde(default)]
+    pub advance_s: Vec<u32>,
 }
 
 pub fn protocol_of(p: u8) -> ProtocolMode {
@@ -201,6 +204,33 @@ impl PartialOrd for WQ {
     }
 }
 
+/// Does the cache hold an unexpired NS set for a zone enclosing `qname` none
+/// of whose hosts (all inside that zone) has an unexpired address any more?
+pub fn glue_expired_before_ns(u: &Universe, cache: &SharedCache, now: u64, qname: &N) -> bool {
+    let snap = cache.verif_snapshot();
+    let hints = u.hints_zone();
+    for z in u.zones.iter().filter(|z| !z.apex.0.is_empty() && qname.is_at_or_below(&z.apex)) {
+        let hosts: Vec<N> = snap
+            .entries
+            .iter()
+            .filter(|e| N::from_domain(&e.0) == z.apex && e.1 == RecordType::NS && e.3 > now)
+            .filter_map(|e| if let RecordTypeWithData::NS { nsdname } = &e.2 { Some(N::from_domain(nsdname)) } else { None })
+            .collect();
+        if hosts.is_empty() {
+            continue;
+        }
+        let stuck = hosts.iter().all(|h| {
+            let has_addr = snap.entries.iter().any(|e| N::from_domain(&e.0) == *h && (e.1 == RecordType::A || e.1 == RecordType::AAAA) && e.3 > now)
+                || hints.recs.iter().any(|r| r.owner == *h);
+            h.is_at_or_below(&z.apex) && !has_addr
+        });
+        if stuck {
+            return true;
+        }
+    }
+    false
+}
+
 pub struct Sessions;
 
 pub fn hints_zones(u: &Universe) -> Zones {
@@ -228,7 +258,8 @@ impl Prop for Sessions {
         let ok: Vec<u8> = (0..4u8).filter(|p| reachable(&universe, *p)).collect();
         let protocol = g.pick(&ok);
         let questions = gen_questions(g, &universe, 6);
-        Case { universe, questions, protocol }
+        let advance_s = questions.iter().map(|_| g.pick(&[0u32, 0, 0, 1, 59, 60, 61, 299, 300, 301, 3600, 4000])).collect();
+        Case { universe, questions, protocol, advance_s }
     }
     fn check(&self, c: &Case) -> Outcome {
         clock::set_virtual_nanos(Some(1_000_000_000));
@@ -238,8 +269,15 @@ impl Prop for Sessions {
         let mock = Mock::new(universe_responder(u.clone()));
         let mode = Mode::Recursive { protocol: protocol_of(c.protocol), port: 53 };
         let mut out = Outcome::pass(false).class(format!("protocol:{}", protocol_of(c.protocol))).class(format!("zones:{}", u.zones.len()));
+        let mut now_ns: u64 = 1_000_000_000;
         for (i, q) in c.questions.iter().enumerate() {
             mock.clear_log();
+            // time passes between questions: cached delegations and answers age and expire
+            now_ns += u64::from(c.advance_s.get(i).copied().unwrap_or(0)) * 1_000_000_000;
+            clock::set_virtual_nanos(Some(now_ns));
+            if c.advance_s.get(i).copied().unwrap_or(0) > 0 {
+                out.classes.push("clock-advanced".into());
+            }
             let t = u.truth(q);
             if t.looped {
                 out.classes.push("truth-loops".into());
@@ -252,7 +290,11 @@ impl Prop for Sessions {
             let res = match r.result {
                 Err(p) => return out.fail("resolver-panic", p),
                 Ok(Err(e)) => {
-                    return out.fail("resolution-failed", format!("question {i} ({} {}): {e:?}; authoritative data: {:?}; exchanges: {}", q.name, q.qtype, t, describe(&log)));
+                    // root-cause signature F15: the cache still holds the NS set of
+                    // an enclosing zone but the addresses of all its (in-bailiwick)
+                    // hosts have expired; the resolver does not go back up
+                    let sig = if glue_expired_before_ns(u, &cache, now_ns, &q.name.lower()) { "glue-expired-before-ns" } else { "resolution-failed" };
+                    return out.fail(sig, format!("question {i} ({} {}): {e:?}; authoritative data: {:?}; exchanges: {}", q.name, q.qtype, t, describe(&log)));
                 }
                 Ok(Ok(r)) => r,
             };
@@ -326,7 +368,7 @@ pub fn def() -> PropertyDef {
     PropertyDef {
         id: "C07",
         level: "exploration",
-        rule: "A generated DNS universe (2..7 zones below root hints, depth <= 5, 1..3 NS hosts per zone, in-bailiwick with glue or out-of-bailiwick in an earlier zone with or without glue, hosts v4-only / v6-only / dual, sometimes two addresses per family, data incl. empty non-terminals, wildcards, CNAMEs inside and across zones, to missing names) is served by a mock transport (hook H2) whose servers answer per RFC 1034 4.3.2 computed by R-ZONE (referrals with glue, AA answers, NODATA/NXDOMAIN with SOA, CNAME with or without in-server chasing, TC over UDP above 512 octets). A case is a session of 1..6 questions (existing and missing names and types, apexes, NS host names, aliases) sharing one cache, in a protocol mode under which every zone is reachable. Oracle: result = ground truth computed globally (alias chain in order ++ final RRset as multiset, TTL <= authoritative, SOA of the final zone iff the final set is empty), and per question the zones asked get strictly deeper (TCP retry at the same server excepted). Non-trivial = some question needed >= 2 referrals, a glueless NS lookup, an alias chain, or was answered from cache left by an earlier question. Distinct by hash of the case.",
+        rule: "A generated DNS universe (2..7 zones below root hints, depth <= 5, 1..3 NS hosts per zone, in-bailiwick with glue or out-of-bailiwick in an earlier zone with or without glue, hosts v4-only / v6-only / dual, sometimes two addresses per family, data incl. empty non-terminals, wildcards, CNAMEs inside and across zones, to missing names) is served by a mock transport (hook H2) whose servers answer per RFC 1034 4.3.2 computed by R-ZONE (referrals with glue, AA answers, NODATA/NXDOMAIN with SOA, CNAME with or without in-server chasing, TC over UDP above 512 octets). A case is a session of 1..6 questions (existing and missing names and types, apexes, NS host names, aliases) sharing one cache, with the cache clock (hook H1) advancing 0 s..4000 s between questions so that cached delegations and answers age and expire, in a protocol mode under which every zone is reachable. Oracle: result = ground truth computed globally (alias chain in order ++ final RRset as multiset, TTL <= authoritative, SOA of the final zone iff the final set is empty), and per question the zones asked get strictly deeper (TCP retry at the same server excepted). Non-trivial = some question needed >= 2 referrals, a glueless NS lookup, an alias chain, or was answered from cache left by an earlier question. Distinct by hash of the case.",
         assumptions: vec![
             "consistent universes: parent NS set = child NS set, glue = real address, every server answers",
             "CNAME and ANY questions at alias names are outside the comparison (D4)",
